@@ -152,6 +152,9 @@ def build_n(ncells):
                 st.data.append('imp:p ' + ' '.join(compress(dp, mode)))
         if not any(st.expected.values()):
             ch.reject()
+        # the note does not depend on which blocks of the output are switched off
+        st.options = ch.choose('output-switches', [[], ['--skip-boundary-conditions'], ['--skip-compositions', '--skip-geomcomp'],
+                                                   ['--skip-compositions', '--skip-geomcomp', '--skip-boundary-conditions']])
         return st
     return build
 
